@@ -3,6 +3,7 @@
 HARNESSES = {
     'c01': dict(flavour='asan', srcs=['c01.cpp']),
     'engine': dict(flavour='asan', srcs=['engine.cpp']),
+    'c11': dict(flavour='asan', srcs=['c11.cpp']),
 }
 
 PROPS = {
@@ -50,6 +51,19 @@ PROPS = {
              'deadline, target) seen on every resume with the one the chain was fired with and the plugin object '
              'serial. Non-trivial = a suspension lasting >=2 ticks during which no group of that ruleset fires.',
         assumptions=['scripted plugins in the real registry; virtual CLOCK_MONOTONIC'],
+    ),
+    'C11': dict(
+        harness='c11', level='exploration',
+        quick=dict(shards=8, n=1500, size=100),
+        thorough=dict(shards=16, n=60000, size=100),
+        rule='rapidcheck-generated history (4-12 ticks) over 6 candidate cgroups on tmpfs that are created, removed '
+             '(any number at once), re-created after >=1 absent tick and (un)tagged with the xattr_filter attribute; '
+             'ruleset cgroup pattern with wildcards, optional xattr_filter, per-instance scripts incl. delays and '
+             'ASYNC pauses, optional ordinary rulesets before/after. Oracle: instance set from the world model, '
+             'EngineModel per instance (fresh after absence), init cgroup argument, ActionContext target, exactly '
+             'one prerun per tick per live plugin object; ASan on the discard path. Non-trivial = a tick in which '
+             '>=1 instance is discarded while >=1 survives.',
+        assumptions=['remove-and-re-create within one tick gap is not generated (property: absent for at least one tick)'],
     ),
 }
 
